@@ -108,6 +108,25 @@ class Ctx:
             return None
         return self.new("k", "int", "0 <= $ < %d" % n)
 
+    def pin_from(self, start):
+        """Pin the branching variables created since index `start` (lengths at max, Optionals non-None, keys
+        present, selectors at 0): concretise what an obligation does not depend on."""
+        import re as _re
+
+        for j in range(start, len(self.vars)):
+            name, ann, pre = self.vars[j]
+            letter = _re.sub(r"\d+$", "", name)[-1]
+            if letter == "n":
+                mx = _re.search(r"<= (\d+)$", pre).group(1)
+                pre = "%s == %s" % (name, mx)
+            elif letter == "z":
+                pre = "not %s" % name
+            elif letter == "p":
+                pre = name
+            elif letter == "k":
+                pre = "%s == 0" % name
+            self.vars[j] = (name, ann, pre)
+
     def signature(self):
         return ", ".join("%s: %s" % (n, a) for n, a, _ in self.vars)
 
